@@ -29,6 +29,11 @@ Definition run_case (c : sexp) : sexp :=
   if head_is c "write" then
     let '(out, w) := write_fcall (get_N (arg c 0)) (get_bool (arg c 1)) (fcall_of_sexp (arg c 2)) in
     SList [SBytes out; sexp_of_write_res w]
+  else if head_is c "writeseq" then
+    (* several writes on one channel: each is decided on its own *)
+    let m := get_N (arg c 0) in
+    SList (map (fun x => let '(out, w) := write_fcall m true (fcall_of_sexp x) in SList [SBytes out; sexp_of_write_res w])
+               (get_list (arg c 1)))
   else if head_is c "read" then
     SList (map sexp_of_read_out (read_many (N.to_nat (get_N (arg c 1))) (get_N (arg c 0)) [] (get_bytes (arg c 2))))
   else if head_is c "shake-server" then
